@@ -1,0 +1,79 @@
+//go:build verif
+
+package pointindex
+
+import (
+	"github.com/pdok/texel/intgeom"
+	"github.com/pdok/texel/morton"
+)
+
+// Hooks for the verification harness in /verif (build tag verif). Add-only: thin wrappers around unexported code.
+
+// XLineIntersects exposes lineIntersects
+func XLineIntersects(intLine intgeom.Line, intExtent intgeom.Extent) bool {
+	return lineIntersects(intLine, intExtent)
+}
+
+// XContainsPoint exposes containsPoint
+func XContainsPoint(intPt intgeom.Point, intExtent intgeom.Extent) bool {
+	return containsPoint(intPt, intExtent)
+}
+
+// XGrid exposes the integer grid parameters of an index
+func (ix *PointIndex) XGrid() (intExtent intgeom.Extent, deepestRes intgeom.M, deepestLevel Level, deepestSize uint) {
+	return ix.intExtent, ix.deepestRes, ix.deepestLevel, ix.deepestSize
+}
+
+// XNew makes an index from integer grid parameters, without a tile matrix set
+func XNew(intExtent intgeom.Extent, deepestLevel Level) *PointIndex {
+	deepestSize := uint(1) << deepestLevel
+	ix := PointIndex{
+		Quadrant:     Quadrant{intExtent: intExtent, z: 0},
+		deepestLevel: deepestLevel,
+		deepestSize:  deepestSize,
+		deepestRes:   intExtent.XSpan() / int64(deepestSize),
+		quadrants:    make(map[Level]map[morton.Z]Quadrant, deepestLevel+1),
+		hitOnce:      make(map[uint]map[intgeom.Point][]int),
+		hitMultiple:  make(map[uint]map[intgeom.Point][]int),
+	}
+	_, ix.intCentroid = ix.getQuadrantExtentAndCentroid(0, 0, 0, intExtent)
+	return &ix
+}
+
+// XSnapInt exposes snapClosestPoints on an integer line: per level the (x, y) addresses of the quadrants, in order
+func (ix *PointIndex) XSnapInt(intLine intgeom.Line, levels []Level) map[Level][][2]uint {
+	levelMap := make(map[Level]any, len(levels))
+	for _, l := range levels {
+		levelMap[l] = struct{}{}
+	}
+	res := make(map[Level][][2]uint, len(levels))
+	for level, quadrants := range ix.snapClosestPoints(intLine, levelMap) {
+		addrs := make([][2]uint, len(quadrants))
+		for i, q := range quadrants {
+			x, y := morton.FromZ(q.z)
+			addrs[i] = [2]uint{x, y}
+		}
+		res[level] = addrs
+	}
+	return res
+}
+
+// XQuadrant exposes extent and centroid of a quadrant
+func (ix *PointIndex) XQuadrant(level Level, x, y uint) (intgeom.Extent, intgeom.Point) {
+	return ix.getQuadrantExtentAndCentroid(level, x, y, ix.intExtent)
+}
+
+// XHot lists the (x, y) addresses present on a level
+func (ix *PointIndex) XHot(level Level) [][2]uint {
+	res := make([][2]uint, 0, len(ix.quadrants[level]))
+	for z := range ix.quadrants[level] {
+		x, y := morton.FromZ(z)
+		res = append(res, [2]uint{x, y})
+	}
+	return res
+}
+
+// XGetQuadrantZs exposes getQuadrantZs
+func XGetQuadrantZs(parentZ morton.Z) [4]morton.Z {
+	return getQuadrantZs(parentZ)
+}
